@@ -289,7 +289,10 @@ def cmdResolve (family mode zones cache script question expect impl : String) : 
                   let zoneRRs := allZones.zones.flatMap (fun kv => zoneAllRRs kv.2)
                   let replyOf (e : String × Bool × String × Nat) : List RR :=
                     match script.reverse.find? (fun se => showAddr se.addr == e.1 && se.tcp == e.2.1 && showName se.qname == e.2.2.1 && se.qtype == e.2.2.2) with
-                    | some se => (match se.raw with | some m => m.answers ++ m.authority ++ m.additional | none => [])
+                    | some se => (match se.raw with
+                        -- a record with TTL 0 is used for the transaction, never held (it is not cached)
+                        | some m => (m.answers ++ m.authority ++ m.additional).filter (fun rr => rr.ttl > 0)
+                        | none => [])
                     | none => []
                   let addrText (rr : RR) : Option String := match rr.fields with
                     | [.a x] => some (showAddr (.a x))
